@@ -24,6 +24,7 @@ an alias, try/except KeyError as the only control flow, one f-string).  Anything
 from __future__ import annotations
 
 import ast
+import re
 import os
 import typing
 
@@ -712,12 +713,63 @@ def uniq_filters() -> typing.List[dict]:
                     if not fn.name.startswith('filter_'):
                         raise Unsupported('%s.%s: unique names handed out by a non-filter' % (lang, fn.name))
                     decos = [_deco_name(d) for d in fn.decorator_list]
+                    # the re-binding form of a decorator:  f = template_volatile_filter(f)  at module level, after the def
+                    for st in tree.body:
+                        if (isinstance(st, ast.Assign) and len(st.targets) == 1 and isinstance(st.targets[0], ast.Name)
+                                and st.targets[0].id == fn.name and isinstance(st.value, ast.Call) and len(st.value.args) == 1
+                                and not st.value.keywords and isinstance(st.value.args[0], ast.Name) and st.value.args[0].id == fn.name
+                                and st.lineno > fn.lineno):
+                            decos.append(_deco_name(st.value.func))
+                        elif (isinstance(st, (ast.Assign, ast.AnnAssign)) and getattr(st, 'lineno', 0) > fn.lineno
+                              and any(isinstance(t, ast.Name) and t.id == fn.name
+                                      for t in (st.targets if isinstance(st, ast.Assign) else [st.target]))):
+                            raise Unsupported('%s.%s is re-bound at module level in a form the scanner does not know' % (lang, fn.name))
                     reg = ('volatile' if 'template_volatile_filter' in decos else 'context' if 'template_context_filter' in decos
                            else 'environment' if 'template_environment_filter' in decos else 'language' if 'template_language_filter' in decos
                            else 'plain')
                     out.append({'lang': lang, 'filter': fn.name[len('filter_'):], 'key': n.args[0].value, 'prefix': n.args[2].value,
                                 'suffix': n.args[3].value, 'registration': reg})
     return out
+
+
+def scan_lexer_key() -> typing.Tuple[typing.List[str], typing.List[str]]:
+    """The bundled engine keeps ONE process-wide cache of Lexer objects (jinja2/lexer.py _lexer_cache) shared by all environments.
+    Returns (attributes of the environment that make up the cache key in get_lexer, attributes of the environment that
+    Lexer.__init__ reads).  Fails closed on any other shape of get_lexer."""
+    tree = gen.parse_repo('src/nunavut/jinja/jinja2/lexer.py')
+    gl = [f for f in tree.body if isinstance(f, ast.FunctionDef) and f.name == 'get_lexer']
+    lx = [c for c in tree.body if isinstance(c, ast.ClassDef) and c.name == 'Lexer']
+    if len(gl) != 1 or len(lx) != 1 or len(gl[0].args.args) != 1:
+        raise Unsupported('jinja2/lexer.py: get_lexer / Lexer not found')
+    env = gl[0].args.args[0].arg
+    key_assign = [st for st in gl[0].body if isinstance(st, ast.Assign) and len(st.targets) == 1
+                  and isinstance(st.targets[0], ast.Name) and st.targets[0].id == 'key']
+    if len(key_assign) != 1 or not isinstance(key_assign[0].value, ast.Tuple):
+        raise Unsupported('jinja2/lexer.py get_lexer: the cache key is not a tuple display of environment attributes')
+    key = []
+    for e in key_assign[0].value.elts:
+        if not (isinstance(e, ast.Attribute) and isinstance(e.value, ast.Name) and e.value.id == env):
+            raise Unsupported('jinja2/lexer.py get_lexer: key component %s' % ast.unparse(e))
+        key.append(e.attr)
+    uses = [n for n in ast.walk(gl[0]) if isinstance(n, ast.Subscript) and isinstance(n.value, ast.Name) and n.value.id == '_lexer_cache']
+    gets = [n for n in ast.walk(gl[0]) if isinstance(n, ast.Call) and isinstance(n.func, ast.Attribute) and n.func.attr == 'get'
+            and isinstance(n.func.value, ast.Name) and n.func.value.id == '_lexer_cache']
+    if not uses or not gets or any(not (isinstance(u.slice, ast.Name) and u.slice.id == 'key') for u in uses) \
+            or any(not (len(g.args) == 1 and isinstance(g.args[0], ast.Name) and g.args[0].id == 'key') for g in gets):
+        raise Unsupported('jinja2/lexer.py get_lexer: _lexer_cache is not read and written under `key`')
+    init = [f for f in lx[0].body if isinstance(f, ast.FunctionDef) and f.name == '__init__']
+    if len(init) != 1 or len(init[0].args.args) != 2:
+        raise Unsupported('jinja2/lexer.py Lexer.__init__ signature')
+    envp = init[0].args.args[1].arg
+    reads = sorted({n.attr for n in ast.walk(init[0]) if isinstance(n, ast.Attribute) and isinstance(n.value, ast.Name) and n.value.id == envp})
+    for n in ast.walk(init[0]):          # the environment handed on or kept would defeat the scan
+        if isinstance(n, ast.Name) and n.id == envp and isinstance(n.ctx, ast.Load):
+            pass
+    for f in lx[0].body:                 # no other method may look at an environment
+        if isinstance(f, ast.FunctionDef) and f.name != '__init__':
+            if any(isinstance(n, ast.Attribute) and n.attr == 'environment' for n in ast.walk(f)):
+                raise Unsupported('jinja2/lexer.py Lexer.%s reads an environment' % f.name)
+    return key, reads
 
 
 def gen_sites() -> typing.Tuple[bool, str]:
@@ -764,9 +816,25 @@ def gen_sites() -> typing.Tuple[bool, str]:
                 '; '.join(_coq_str(e) for e in x['escapes'])) for x in mobjs]
     erows = ['  {| ek_file := %s; ek_where := %s;\n     ek_kw := %s; ek_vkind := %s |}'
              % (_coq_str(x['file']), _coq_str(x['where']), _coq_str(x['kw']), x['vkind']) for x in ekws]
+    try:
+        lkey, lreads = scan_lexer_key()
+    except (Unsupported, SyntaxError, OSError) as ex:
+        gen.write_if_changed(out_path, head + '(* lexer-key scanner failed closed: %s *)\n' % str(ex).replace('*)', '* )'))
+        return False, 'lexer-key scanner failed closed: %s' % ex
+    try:
+        wreads = scan_wide_reads()
+    except (Unsupported, SyntaxError, OSError) as ex:
+        gen.write_if_changed(out_path, head + '(* wide-read scanner failed closed: %s *)\n' % str(ex).replace('*)', '* )'))
+        return False, 'wide-read scanner failed closed: %s' % ex
+    wrows = ['  {| w_file := %s;\n     w_where := %s;\n     w_name := %s; w_kind := %s |}'
+             % (_coq_str(x['file']), _coq_str(x['where']), _coq_str(x['name']), x['kind']) for x in wreads]
     srows = ['  {| st_file := %s;\n     st_fn := %s;\n     st_target := %s; st_root := %s; st_phase := %s |}'
              % (_coq_str(x['file']), _coq_str(x['fn']), _coq_str(x['target']), x['root'], x['phase']) for x in stores]
-    text = ('Definition g_modobjs : list modobj :=\n [\n' + ';\n'.join(mrows) + '\n ].\n\n'
+    text = ('(* bundled jinja2/lexer.py: the process-wide _lexer_cache *)\n'
+            'Definition g_lexer_key : list str :=\n [' + ';\n  '.join(_coq_str(x) for x in lkey) + '].\n'
+            'Definition g_lexer_reads : list str :=\n [' + ';\n  '.join(_coq_str(x) for x in lreads) + '].\n\n'
+            'Definition g_wide_reads : list wread :=\n [\n' + ';\n'.join(wrows) + '\n ].\n\n'
+            'Definition g_modobjs : list modobj :=\n [\n' + ';\n'.join(mrows) + '\n ].\n\n'
             'Definition g_env_kwargs : list envkw :=\n [\n' + ';\n'.join(erows) + '\n ].\n\n'
             'Definition g_stores : list store :=\n [\n' + ';\n'.join(srows) + '\n ].\n\n'
             'Definition g_sites : list site :=\n [\n' + ';\n'.join(rows) + '\n ].\n\n'
@@ -790,6 +858,8 @@ GENERATORS['sites'] = gen_sites
 # =====================================================================================================================
 STORE_MUTATORS = MUTATORS | {'popleft', 'rotate', 'write', 'writelines', 'seek', 'truncate'}
 RENDER_ROOT_NAMES = {'generate_all', '__call__'}
+TEMPLATE_REACHABLE_CLASSES = {'Namespace', 'LanguageTemplateNamespace', 'Dependencies', 'LanguageContext', 'LanguageConfig',
+                              'IncludeGenerator', 'TokenEncoder', 'DependencyBuilder'}
 RENDER_ROOT_PREFIXES = ('filter_', 'is_', 'uses_')
 
 
@@ -817,7 +887,8 @@ def _path_of(e: ast.expr, alias: typing.Dict[str, str]) -> typing.Tuple[typing.O
     return root, root + tail
 
 
-def scan_stores() -> typing.List[dict]:
+def _collect_functions():
+    """(every function of src/nunavut with its enclosing-scope names and module globals, indices of the render-phase ones)"""
     root_dir = os.path.join(gen.REPO, 'src', 'nunavut')
     mods = []
     for d, _, names in sorted(os.walk(root_dir)):
@@ -868,6 +939,13 @@ def scan_stores() -> typing.List[dict]:
         calls.append(cs)
     render: typing.Set[int] = set()
     todo = [i for i, f in enumerate(funcs) if f[2].name in RENDER_ROOT_NAMES or f[2].name.startswith(RENDER_ROOT_PREFIXES)]
+    # objects a TEMPLATE can reach directly (T and what hangs off it, the `ln`/`options`/`nunavut` globals): every public method or
+    # property of their classes is callable from a template without any Python caller
+    for i, f in enumerate(funcs):
+        cls_name = f[1].split('.')[0] if '.' in f[1] else ''
+        if (cls_name.endswith('Language') or cls_name in TEMPLATE_REACHABLE_CLASSES) and f[1].count('.') == 1 \
+                and not f[2].name.startswith('_'):
+            todo.append(i)
     while todo:
         i = todo.pop()
         if i in render:
@@ -877,6 +955,11 @@ def scan_stores() -> typing.List[dict]:
             for j in by_name.get(c, []):
                 if j not in render and funcs[j][2].name != '__init__':
                     todo.append(j)
+    return funcs, render
+
+
+def scan_stores() -> typing.List[dict]:
+    funcs, render = _collect_functions()
     # ---- stores
     out: typing.List[dict] = []
     for i, (rel, qual, fn, encl, mod_globals) in enumerate(funcs):
@@ -897,10 +980,36 @@ def scan_stores() -> typing.List[dict]:
                 if r is None:
                     continue
                 long_lived = r in ('self', 'cls') or (r not in locs and r not in params and (r in encl or r in mod_globals))
-                if long_lived and not isinstance(n.value, ast.Call):
+                # (the result of a call on a long-lived object may be -- or expose -- part of that object: aliased too, except
+                # for constructors of fresh containers)
+                fresh = isinstance(n.value, ast.Call) and _callee_name(n.value.func) in COPYING_CALLS
+                if long_lived and not fresh:
                     for t in (n.targets if isinstance(n, ast.Assign) else [n.target]):
                         if isinstance(t, ast.Name):
                             alias[t.id] = path
+        # loop variables, `with` targets and comprehension variables ranging over / bound to something long-lived
+        binders: typing.List[typing.Tuple[ast.expr, ast.expr]] = []
+        for n in own:
+            if id(n) in nested_nodes:
+                continue
+            if isinstance(n, (ast.For, ast.AsyncFor)):
+                binders.append((n.target, n.iter))
+            elif isinstance(n, ast.comprehension):
+                binders.append((n.target, n.iter))
+            elif isinstance(n, (ast.With, ast.AsyncWith)):
+                binders.extend((it.optional_vars, it.context_expr) for it in n.items if it.optional_vars is not None)
+        for tgt, src in binders:
+            e = src
+            while isinstance(e, ast.Call) and _callee_name(e.func) in ('enumerate', 'reversed', 'sorted', 'list', 'iter', 'zip', 'items',
+                                                                          'values', 'keys') and (e.args or isinstance(e.func, ast.Attribute)):
+                e = e.args[0] if e.args else e.func.value
+            r, path = _path_of(e, alias)
+            if r is None:
+                continue
+            if r in ('self', 'cls') or (r not in locs and r not in params and (r in encl or r in mod_globals)) or r in alias:
+                for t in ast.walk(tgt):
+                    if isinstance(t, ast.Name):
+                        alias[t.id] = path + '[]'
 
         def root_kind(r: typing.Optional[str]) -> typing.Optional[str]:
             if r is None:
@@ -943,6 +1052,10 @@ def scan_stores() -> typing.List[dict]:
                 elif isinstance(f, ast.Name) and f.id in ('setattr', 'delattr') and n.args:
                     nm = n.args[1].value if len(n.args) > 1 and isinstance(n.args[1], ast.Constant) else '*'
                     add(n.args[0], '.<%s %s>' % (f.id, nm))
+                elif isinstance(f, ast.Name) and f.id == 'next' and n.args:          # advancing an iterator / counter
+                    add(n.args[0], '.<next>')
+                elif isinstance(f, ast.Attribute) and f.attr in ('send', '__next__', 'throw', 'seed', 'shuffle'):
+                    add(f.value, '.%s()' % f.attr)
     out.extend(_param_mutations(funcs))
     seen, res = set(), []
     for s in out:
@@ -1200,3 +1313,79 @@ def scan_env_kwargs() -> typing.List[dict]:
                         for k in c.keywords:
                             out.append({'file': rel, 'where': fn.name, 'kw': k.arg, 'vkind': value_kind(k.value, params)})
     return out
+
+
+# =====================================================================================================================
+# READS that span more than a type and its dependency closure (C10, the sibling clause): every use, in render-phase Python code and
+# in every template, of the Namespace API (regenerated: the public names of class Namespace) and of the other handles on "the whole
+# run" (the generator's namespace attribute, environment globals, the language context).
+# =====================================================================================================================
+WIDE_EXTRA = {'namespace', '_namespace', 'globals', 'get_supported_languages', 'get_language_context', 'language_context',
+              'get_dependency_builder', 'get_includes'}
+
+
+def wide_names() -> typing.List[str]:
+    tree = gen.parse_repo('src/nunavut/_namespace.py')
+    cls = [c for c in tree.body if isinstance(c, ast.ClassDef) and c.name == 'Namespace']
+    if len(cls) != 1:
+        raise Unsupported('_namespace.py: class Namespace not found')
+    names = {f.name for f in cls[0].body if isinstance(f, (ast.FunctionDef, ast.AsyncFunctionDef)) and not f.name.startswith('_')}
+    names |= {'_parent', '_nested_namespaces', '_data_type_to_outputs'}
+    try:        # names a Namespace shares with every pydsdl composite type (full_name, attributes, ...) say nothing about siblings
+        import pydsdl  # pylint: disable=import-outside-toplevel
+        names = {n for n in names if not hasattr(pydsdl.CompositeType, n)}
+    except ImportError as ex:
+        raise Unsupported('pydsdl is needed to separate the Namespace API from the type API: %r' % (ex,))
+    return sorted(names | WIDE_EXTRA)
+
+
+def scan_wide_reads() -> typing.List[dict]:
+    names = set(wide_names())
+    out: typing.List[dict] = []
+    funcs, render = _collect_functions()
+    for i, (rel, qual, fn, _e, _g) in enumerate(funcs):
+        if i not in render:
+            continue
+        nested = set()
+        for n in ast.walk(fn):
+            if n is not fn and isinstance(n, (ast.FunctionDef, ast.AsyncFunctionDef)):
+                nested.update(id(x) for x in ast.walk(n))
+        for n in ast.walk(fn):
+            if id(n) in nested:
+                continue
+            if isinstance(n, ast.Attribute) and n.attr in names:
+                out.append({'file': rel, 'where': qual, 'name': n.attr, 'kind': 'WPython'})
+    troot = os.path.join(gen.REPO, 'src', 'nunavut', 'lang')
+    pat = re.compile(r'(?:\.|\|\s*)(%s)\b' % '|'.join(sorted(re.escape(x) for x in names)))
+    ref = re.compile(r'{%-?\s*(?:include|import|from|extends)\s+[\'"]([^\'"]+)[\'"]')
+    for d, _, fns in sorted(os.walk(troot)):
+        j2 = sorted(n for n in fns if n.endswith('.j2'))
+        if not j2:
+            continue
+        texts = {n: open(os.path.join(d, n), encoding='utf-8').read() for n in j2}
+        for n, t in texts.items():
+            if re.search(r'{%-?\s*(?:include|import|from|extends)\s+[^\'"\s]', t):
+                raise Unsupported('%s: template reference that is not a string literal' % n)
+        # templates a TYPE file can be made of: everything reachable (include/import/from/extends) from a template that the lookup
+        # can select for a type, i.e. every template named after a class other than Namespace
+        graph = {n: set(ref.findall(t)) & set(j2) for n, t in texts.items()}
+        helpers = {m for n in j2 for m in graph[n]}
+        type_roots = [n for n in j2 if n not in helpers and n != 'Namespace.j2'] if os.path.basename(d) == 'templates' else list(j2)
+        reach, todo = set(), list(type_roots)
+        while todo:
+            x = todo.pop()
+            if x not in reach:
+                reach.add(x)
+                todo.extend(graph[x])
+        for n in j2:
+            rel = os.path.relpath(os.path.join(d, n), os.path.join(gen.REPO, 'src', 'nunavut')).replace(os.sep, '/')
+            for m in sorted(set(pat.findall(texts[n]))):
+                out.append({'file': rel, 'where': 'template of type files' if n in reach else 'template of namespace files only',
+                            'name': m, 'kind': 'WTemplateType' if n in reach else 'WTemplateNamespaceOnly'})
+    seen, res = set(), []
+    for x in out:
+        k = (x['file'], x['where'], x['name'])
+        if k not in seen:
+            seen.add(k)
+            res.append(x)
+    return res
